@@ -168,6 +168,9 @@ theorem inv_newStream (s : State) (st : St) (id : Nat) (l : List H) (h : Inv s) 
     have := (h.5 a ha).1
     omega
 
+theorem goAway_st (s : State) (c : Nat) : (goAway s c).st = s := by
+  unfold goAway; split <;> rfl
+
 theorem inv_step (s : State) (e : Ev) (h : Inv s) : Inv (step s e).st := by
   have h0 : Inv { s with kick := false } := inv_kick s false h
   cases e with
@@ -178,23 +181,25 @@ theorem inv_step (s : State) (e : Ev) (h : Inv s) : Inv (step s e).st := by
     · split
       · exact h0
       · split
-        · exact inv_reset _ _ _ h0
-        · rename_i hz hbad heq
-          have hodd : id % 2 = 1 := by omega
-          have hgt : s.maxId < id := by
-            have : ¬ id < s.maxId := fun hh => hbad (Or.inr hh)
-            have : id ≠ s.maxId := heq
-            omega
-          have hflow : I32 ((flowAdd 0 s.iws).getD 0) := by
-            cases hfa : flowAdd 0 s.iws with
-            | none => simp [I32]
-            | some v => exact (flowAdd_sound 0 s.iws v (by simp [I32]) h.3 hfa).2
-          have key := fun (st : St) (hst : StOK st) (l : List H) => inv_newStream s st id l h hst hodd hgt
-          split
-          · exact key _ ⟨by show (0 : Int) ≤ 65536; omega, by show (65536 : Int) + ((0 : Nat) : Int) ≤ 65536; omega, hflow⟩ _
-          · split
-            · exact inv_reset _ _ _ (key _ ⟨by show (0 : Int) ≤ 65536; omega, by show (65536 : Int) + ((0 : Nat) : Int) ≤ 65536; omega, hflow⟩ _)
+        · rw [goAway_st]; exact h0
+        · split
+          · exact inv_reset _ _ _ h0
+          · rename_i hz hga hbad heq
+            have hodd : id % 2 = 1 := by omega
+            have hgt : s.maxId < id := by
+              have : ¬ id < s.maxId := fun hh => hbad (Or.inr hh)
+              have : id ≠ s.maxId := heq
+              omega
+            have hflow : I32 ((flowAdd 0 s.iws).getD 0) := by
+              cases hfa : flowAdd 0 s.iws with
+              | none => simp [I32]
+              | some v => exact (flowAdd_sound 0 s.iws v (by simp [I32]) h.3 hfa).2
+            have key := fun (st : St) (hst : StOK st) (l : List H) => inv_newStream s st id l h hst hodd hgt
+            split
             · exact key _ ⟨by show (0 : Int) ≤ 65536; omega, by show (65536 : Int) + ((0 : Nat) : Int) ≤ 65536; omega, hflow⟩ _
+            · split
+              · exact inv_reset _ _ _ (key _ ⟨by show (0 : Int) ≤ 65536; omega, by show (65536 : Int) + ((0 : Nat) : Int) ≤ 65536; omega, hflow⟩ _)
+              · exact key _ ⟨by show (0 : Int) ≤ 65536; omega, by show (65536 : Int) + ((0 : Nat) : Int) ≤ 65536; omega, hflow⟩ _
   | data id len fin =>
     simp only [step]
     split
@@ -275,7 +280,7 @@ theorem inv_step (s : State) (e : Ev) (h : Inv s) : Inv (step s e).st := by
           intro x hx
           exact ⟨hx.1, hx.2.1, hs.2⟩
     · cases hfa : flowAdd s.connFlow ((delta % 2147483648 : Nat) : Int) with
-      | none => exact h0
+      | none => simp only []; rw [goAway_st]; exact h0
       | some f =>
         have hs := flowAdd_sound _ _ f h.2 hd hfa
         exact ⟨h.1, hs.2, h.3, h.4, h.5, h.6⟩
@@ -285,14 +290,16 @@ theorem inv_step (s : State) (e : Ev) (h : Inv s) : Inv (step s e).st := by
     · exact h0
     · split
       · exact inv_close _ _ h0
-      · split <;> exact h0
+      · split
+        · exact h0
+        · rw [goAway_st]; exact h0
   | iws val =>
     simp only [step]
     have hn : I32 (wrap32 (val : Int)) := wrap32_I32 _
     have hbase : Inv { ({ s with kick := false } : State) with iws := wrap32 (val : Int) } :=
       ⟨h.1, h.2, hn, h.4, h.5, h.6⟩
     cases hg : growAll s.streams (wrap32 (wrap32 (val : Int) - s.iws)) with
-    | none => simpa [hg, goAway] using hbase
+    | none => simp only [hg]; rw [goAway_st]; exact hbase
     | some l =>
       simp only [hg]
       exact ⟨h.1, h.2, hn, growAll_ok s.streams _ (wrap32_I32 _) l h.4 hg, h.5, h.6⟩
@@ -304,6 +311,11 @@ theorem inv_step (s : State) (e : Ev) (h : Inv s) : Inv (step s e).st := by
   | hcmd id c =>
     simp only [step]
     exact inv_updH _ _ _ h0
+  | graceful =>
+    simp only [step]
+    split
+    · exact h0
+    · exact ⟨h.1, h.2, h.3, h.4, h.5, h.6⟩
 
 theorem inv_handlers (s : State) (l : List H) (b : Bool) (h : Inv s) : Inv { s with handlers := l, kick := b } :=
   ⟨h.1, h.2, h.3, h.4, h.5, h.6⟩
